@@ -70,6 +70,46 @@ def classify(anno, empty, src_obj, tbl):
     return ("ty", tyconv.canon(tyconv.ty_to_tree(anno, tbl)))
 
 
+KEPT_SRC = ("from typing import Callable, Dict, Iterable, List, Mapping, Optional, Sequence, Type, TypeVar\n\n"
+            "_T = TypeVar('_T')\n_T_co = TypeVar('_T_co', covariant=True)\n_T_contra = TypeVar('_T_contra', contravariant=True)\n\n\n"
+            "class Cls:\n    pass\n\n\n")
+KEPT_ANNOS = ["int", "List[int]", "Optional[str]", "Dict[str, Cls]", "Iterable[_T]", "Type[_T]", "Callable[[_T], _T]", "Sequence[_T_co]",
+              "Mapping[str, _T]", "List[_T]", "Callable[[_T_contra], _T_co]", "Dict[str, Iterable[_T]]", "Optional[Iterable[_T]]"]
+
+
+def kept_text(chk, pd, seed):
+    """an annotation that is kept is kept AS WRITTEN: the annotation text in the rendered stub, parsed, is the source's
+    annotation (wrapped in Optional when the default is None) — also when it mentions type variables inside generics that
+    MonkeyType has no renderer of its own for"""
+    import ast
+    from monkeytype.stubs import build_module_stubs_from_traces
+    from monkeytype.tracing import CallTrace
+    src = [KEPT_SRC]
+    for i, a in enumerate(KEPT_ANNOS):
+        src.append("def k%d(p0: %s, p1: %s = None, *, p2: %s = 1, p3=None) -> %s:\n    return None\n\n\n" % (i, a, a, a, a))
+    name = "c13kept_%d" % (seed % 1000)
+    mod, _ = pd.load(name, "".join(src))
+    norm = lambda text: ast.dump(ast.parse(text, mode="eval").body)
+    for i, a in enumerate(KEPT_ANNOS):
+        func = getattr(mod, "k%d" % i)
+        chk.evaluations += 1
+        case = {"annotation": a, "function": "k%d" % i}
+        try:
+            text = build_module_stubs_from_traces([CallTrace(func, {"p0": int, "p1": int, "p2": int, "p3": int}, int)], 0)[name].render()
+            fn = next(n for n in ast.parse(text).body if isinstance(n, ast.FunctionDef) and n.name == "k%d" % i)
+        except Exception as e:
+            chk.fail("kept-text", dict(case, error=repr(e)[:300]))
+            continue
+        got = {x.arg: x.annotation for x in fn.args.args + fn.args.kwonlyargs}
+        got["return"] = fn.returns
+        want = {"p0": a, "p1": a if a.startswith("Optional[") else "Optional[%s]" % a, "p2": a, "return": a}
+        for pos, w in want.items():
+            g = got.get(pos)
+            if g is None or ast.dump(g) != norm(w):
+                chk.fail("kept-text", dict(case, position=pos, stub_annotation=None if g is None else ast.unparse(g), source_annotation=w))
+        chk.nontriv("kept-text|" + a)
+
+
 def run(pid, tier, seed):
     chk = framework.Check(pid, tier, seed)
     chk.rule = RULE
@@ -195,6 +235,7 @@ def run(pid, tier, seed):
             chk.rel(rel, gm == got, dict(case, impl=sexp.dumps(got), model=sexp.dumps(gm)))
         # the real CLI with each flag: presence / absence of annotations per position agrees with the API
         cli_check(chk, pd, cli_jobs)
+        kept_text(chk, pd, seed)
         chk.sample({"annotations": ANNOS, "return_combinations": RET_COMBOS, "strategies": [s for s, _ in strategies]})
     finally:
         pd.close()
